@@ -30,6 +30,7 @@ pub fn opts() -> GenOpts {
     o.usage_fallback = true;
     o.catch = true;
     o.adjacent_cmds = true;
+    o.adjacent_branch = true;
     o
 }
 
